@@ -56,7 +56,7 @@ func ruleURN(e *Env) {
 	if prefix != "urn:uuid:" {
 		e.S.Bad(rule, site, "URNPrefix", "URNPrefix is "+quote(prefix)+", RFC 4122 / the property demand \"urn:uuid:\"", e.Pos(fn), prefix)
 	}
-	df := e.P.Func("uu", "DefaultFormatter")
+	df := e.F("uu", "DefaultFormatter")
 	calls := e.C.Calls(fn, func(f *ssa.Function) bool { return f == df })
 	if len(calls) != 1 {
 		e.S.Unk(rule, site, "call", "URN does not make exactly one call to uu.DefaultFormatter (idioms: direct call with a literal prefix buffer)", e.Pos(fn))
